@@ -92,6 +92,13 @@ def h_active(sx):
         values = {"os": (lambda: os_cur) if lazy else os_cur,
                   "ver": NumberValueObject((lambda: ver_cur) if lazy else ver_cur, cmp),
                   "flag": BoolValueObject(flag_cur)}
+    # category names with several dots (as behave's own "python.feature.xxx" style providers use)
+    RN = {"os": "app.ui.os", "ver": "py.impl.ver", "flag": "x.y.z.flag"} if p.get("dotted_categories") else {}
+    INV = {v: k for k, v in RN.items()}
+    if RN:
+        for k_, v_ in RN.items():
+            tags = [t.replace(".with_%s%s" % (k_, sep), ".with_%s%s" % (v_, sep)) for t in tags]
+        values = {RN[k_]: v_ for k_, v_ in values.items()}
     kind = p.get("provider", "dict")
     prov = Provider(sx, values)
     if kind == "atvp":
@@ -159,11 +166,12 @@ def h_active(sx):
                 cats.setdefault(pt[1], []).append(pt)
         disj = []
         for cat, pts in cats.items():
-            if cat not in ("os", "ver", "flag"):
+            base = INV.get(cat, cat if not RN else None)
+            if base not in ("os", "ver", "flag"):
                 continue    # unknown categories never exclude
             known = zbool(sx.bool("known:%s" % cat))
-            pos = [matches(cat, v) for (pf, c, v) in pts if pf in POSITIVE]
-            neg = [matches(cat, v) for (pf, c, v) in pts if pf in NEGATIVE]
+            pos = [matches(base, v) for (pf, c, v) in pts if pf in POSITIVE]
+            neg = [matches(base, v) for (pf, c, v) in pts if pf in NEGATIVE]
             parts = []
             if pos:
                 parts.append(z3.Not(z3.Or(pos)))
@@ -184,7 +192,8 @@ def h_active(sx):
         return {"tags": tags, "impl_excluded": excluded, "ver_compare": cmp_name,
                 "os": sx.eval(os_cur, m) if m is not None else os_cur, "ver": sx.eval(ver_cur, m) if m is not None else ver_cur,
                 "flag": sx.eval(flag_cur, m) if m is not None else flag_cur,
-                "known": {c: (sx.eval(sx.bool("known:%s" % c), m) if m is not None else bool(sx.bool("known:%s" % c))) for c in ("os", "ver", "flag")}}
+                "known": {c: (sx.eval(sx.bool("known:%s" % c), m) if m is not None else bool(sx.bool("known:%s" % c)))
+                          for c in [RN.get(c_, c_) for c_ in ("os", "ver", "flag")]}}
     sx.check(spec if excluded else z3.Not(spec), "C19.excluded==documented-formula", detail=det)
     sx.check(runs == (not excluded), "C19.should_run==not-should_exclude", detail=det)
     return {"tags": tags, "excluded": excluded}
@@ -197,7 +206,8 @@ def jobs(tier, seed):
                 {"ver_compare": "ge", "provider": "composite"}, {"ver_compare": "ge", "composite_matcher": True},
                 {"ver_compare": "ge", "provider": "atvp-real"}, {"ver_compare": "le", "provider": "composite-real"},
                 {"ver_compare": "ge", "history": True}, {"ver_compare": "eq", "history": True, "provider": "composite-real"},
-                {"ver_compare": "ge", "separator": ":"}, {"ver_compare": "le", "custom_prefixes": True}]
+                {"ver_compare": "ge", "separator": ":"}, {"ver_compare": "le", "custom_prefixes": True},
+                {"ver_compare": "ge", "dotted_categories": True}]
     # three slots: tags of one category separated by an active tag of ANOTHER category (grouping must not depend on adjacency)
     os_tags = [i for i, t in enumerate(TAGS) if t and "with_os" in t]
     other = [i for i, t in enumerate(TAGS) if t and ("with_ver=3" in t or "with_flag=yes" in t or "with_ver=5" in t)]
